@@ -49,12 +49,17 @@ def run(ctx, prop, n=None):
     if crashed:
         # the driver died (a bubble whose goroutines are blocked forever panics the test binary): the last scenario never quiesced
         rows.append({"ev": "driver_failed", "seq": 0, "output": o[-1500:]})
-    accepted, rej = tracev.validate(ctx, "ProdTrace", "ProdTrace.cfg", "prod_trace.ndjson", rows, "prodtrace")
+    def mine_p(why):
+        return any(owner(w, prop) == prop or (prop == "C01" and owner(w, prop) not in ("C02", "C03", "C14")) for w in why.split(" ;; "))
+    accepted, rej = tracev.validate(ctx, "ProdTrace", "ProdTrace.cfg", "prod_trace.ndjson", rows, "prodtrace", max_rounds=24,
+                                    foreign=lambda why: not mine_p(why), passive=("final_flush", "log"))
     mine = 0
-    for s, line, why, ev in rej:
-        p = owner(why, prop)
-        if p != prop and not (prop == "C01" and p not in ("C02", "C03", "C14")):
+    for s, line, whys, ev in rej:
+        # an event can break clauses of several properties at once: report the ones this property states
+        own = [w for w in whys.split(" ;; ") if mine_p(w)]
+        if not own:
             continue
+        why = own[0]
         mine += 1
         sc = json.loads(s[0]["scenario"]) if s and "scenario" in s[0] else None
         ctx.violation("producer: " + why, "%s (event %d of the scenario: %s)" % (why, line, json.dumps(ev)[:400]), {"scenario": sc, "trace_prefix": s[:line]})
@@ -63,7 +68,7 @@ def run(ctx, prop, n=None):
     ctx.cov["evaluations"] = len(rows)
     ctx.notes["events"] = len(rows)
     ctx.notes["scenarios_rejected_any_property"] = len(rej)
-    ctx.notes["rejection_reasons_any_property"] = sorted({why for _, _, why, _ in rej})
+    ctx.notes["rejection_reasons_any_property"] = sorted({w for _, _, why, _ in rej for w in why.split(" ;; ")})
     ctx.notes["event_counts"] = {}
     for r in rows:
         ctx.notes["event_counts"][r["ev"]] = ctx.notes["event_counts"].get(r["ev"], 0) + 1
